@@ -2,4 +2,7 @@ import InToto.Properties.C06
 #print axioms InToto.C06.accepted_is_future
 #print axioms InToto.C06.unparseable_rejected
 #print axioms InToto.C06.expired_rejected
+#print axioms InToto.C06.accepted_means_not_expired
+#print axioms InToto.C06.expired_rejected_nothing_runs
 #print axioms InToto.C06.grammar_examples
+#print axioms InToto.C06.facts_date_layout
